@@ -20,6 +20,19 @@ ASSUMPTIONS = ["generator emits valid Fortran of the supported class (templates 
 DECIDING_MONITORS = ("roundtrips",)
 
 
+def _splice_c1002(sh):
+    if not isinstance(sh, tuple):
+        return sh
+    out = []
+    for c in sh:
+        c2 = _splice_c1002(c)
+        if isinstance(c2, tuple) and c2 and c2[0] == "Format_Item_C1002":
+            out.extend(c2[1:])
+        else:
+            out.append(c2)
+    return tuple(out)
+
+
 def make_payload(rng, idx, tier):
     P, meta = gen_program(rng, tier)
     meta["comments_seed"] = rng.getrandbits(32)
@@ -71,7 +84,12 @@ def one_config(P, sd, ic, cseed, mons=None, raw=None):
                     config=[sd, ic]), src
     sh1, sh2 = shape(t1), shape(r2.tree)
     if sh1 != sh2:
-        return viol("reparse-shape-differs", "%s %s" % (tag, first_diff(sh1, sh2)), config=[sd, ic]), src
+        key = "reparse-shape-differs"
+        if _splice_c1002(sh1) == _splice_c1002(sh2):
+            # the only difference: a Format_Item_C1002 node (kP directly followed by a data edit descriptor) is printed
+            # with a comma and comes back as two list items
+            key = "format-c1002-node-not-reproduced"
+        return viol(key, "%s %s" % (tag, first_diff(sh1, sh2)), config=[sd, ic]), src
     s2 = str(r2.tree)
     if norm_text(s1) != norm_text(s2):
         a, b = norm_text(s1).split("\n"), norm_text(s2).split("\n")
